@@ -134,17 +134,33 @@ def run(tier):
                 continue
             st = s.st
             for sn, ctx in s.sends:
-                if st.canon(sn.byte(17)) != C(OP['hello']):
+                op17 = st.canon(sn.byte(17))
+                if not is_const(op17):
+                    # the frame that answers the Discover was overwritten at a position the analysis cannot tie to the sizes of the
+                    # properties before it (rounded, masked, scaled): the properties no longer follow one another in the frame
+                    rep.fail('R04.a', 'chain|position|%s' % region,
+                             'the answer to a Discover is written at positions that are not the running sum of the property sizes (its opcode byte reads %s after the stores): '
+                             'a property list with gaps ends, for the mapper, at the first gap' % short(op17), function='answerHello', file='lltdResponder/lltdBlock.c')
+                    continue
+                if op17 != C(OP['hello']):
                     continue
                 nhello += 1
                 pos = Lin({}, BASE)
                 seen = {}
                 for _ in range(40):
                     t = sn.byte_at(pos)
-                    if t is None:
-                        break
-                    t = st.canon(t)
-                    if not is_const(t) or t[1] == 0:
+                    t = st.canon(t) if t is not None else None
+                    if t is None or not is_const(t) or t[1] == 0:
+                        # the chain ends here: on the End-of-Property marker, which is the frame's last byte - a zero (pad) byte
+                        # earlier ends the list for the mapper, and the properties written behind it are never read
+                        from ..terms import term_of_lin
+                        endpos = term_of_lin(pos.add(Lin({}, 1)))
+                        at_end = t is not None and is_const(t) and t[1] == 0 and (st.same(endpos, sn.length) or (st.prove_le(endpos, sn.length) and st.prove_le(sn.length, endpos)))
+                        rep.check(at_end, 'R04.a', 'chain|ends-at-marker',
+                                  'the property list of the Hello cannot be followed to the end of the frame: at offset %s (after properties %s) the type byte is %s and the frame is %s bytes long '
+                                  '- a mapper stops reading there and never sees what follows'
+                                  % (short(term_of_lin(pos)), ['0x%02x' % x for x in seen], short(t) if t is not None else 'not written', short(st.canon(sn.length))),
+                                  function='answerHello', file='lltdResponder/lltdBlock.c')
                         break
                     ty = t[1]
                     lb = sn.byte_at(pos.add(Lin({}, 1)))
